@@ -15,12 +15,13 @@
    container/reference_sequence_context.rs ReferenceSequenceContext::update.
 
    Records: [rname] is the ordinal in the read name (identity only), [rid] the reference id,
-   [rs]/[re] alignment start / end (meaningful when rid <> None). *)
+   [rs]/[re] alignment start / end (meaningful when rid <> None), [runm] the UNMAPPED flag
+   (0x4; only query_unmapped looks at it -- NV.CramIdx.Multi). *)
 From Coq Require Import List NArith Bool.
 Import ListNotations.
 Open Scope N_scope.
 
-Record rec := mkrec { rname : N; rid : option N; rs : N; re : N }.
+Record rec := mkrec { rname : N; rid : option N; rs : N; re : N; runm : bool }.
 
 Inductive ctx := Single (r s e : N) | Unmapped | Multi.
 
@@ -30,10 +31,12 @@ Record container := mkcont {
 Record entry := mkentry {
   e_rid : option N; e_start : option N; e_span : N; e_off : N; e_landmark : N; e_slen : N }.
 
-Inductive result (A : Type) := Ok (a : A) | Panic | ErrInvalidInput.
+Inductive result (A : Type) := Ok (a : A) | Panic | ErrInvalidInput | ErrInvalidData | ErrUnexpectedEof.
 Arguments Ok {A} a.
 Arguments Panic {A}.
 Arguments ErrInvalidInput {A}.
+Arguments ErrInvalidData {A}.
+Arguments ErrUnexpectedEof {A}.
 
 Definition usize_max : N := 18446744073709551615.
 
